@@ -33,6 +33,7 @@ type endpointClient struct {
 	tr       *transport
 	sessions *sync.Map
 	ids      *sessionID // only used in side dialing
+	randMu   sync.Mutex // rand is not safe for concurrent dials
 	rand     *mrand.Rand
 	office   *connMailOffice
 
@@ -90,9 +91,12 @@ func (c *endpointClient) Dial(
 	if err != nil {
 		return nil, errcode.Annotate(err, "get side token")
 	}
+	c.randMu.Lock()
+	key := c.rand.Uint64()
+	c.randMu.Unlock()
 	k := &sessionKey{
 		ID:  c.ids.next(),
-		Key: c.rand.Uint64(),
+		Key: key,
 	}
 	box := c.office.newBox(k)
 	defer box.cleanUp()
